@@ -323,6 +323,25 @@ package environment
 //@   on store var.wfState : assert !armed
 
 // ---------------------------------------------------------------------------------------------------------
+// C06 (a destroy completes): the event loop hands a TasksReleasedEvent to the teardown that waits for it and retires the
+// channel registered for that answer - looked up and removed in ONE critical section of the manager's lock. Removing it
+// only after the hand-over races with the teardown registering the channel for its SECOND release round: that new entry
+// is then deleted, the second answer finds nothing and the teardown waits for ever, holding the environment's transition
+// lock. And an answer nobody waits for is not sent anywhere: a send on the nil channel of a failed lookup never returns
+// and stops the event loop for every environment.
+//@ closure NewEnvManager #1
+//@   property C06
+//@   ghostvar wlocked bool = false
+//@   ghostvar lookedLocked bool = false
+//@   on call (*sync.RWMutex).Lock when recvfield == "mu" : wlocked = true
+//@   on call (*sync.RWMutex).Unlock when recvfield == "mu" : wlocked = false
+//@   ghostvar found bool = false
+//@   on lookup environment.Manager.pendingTeardownsCh : lookedLocked = wlocked ; found = result1
+//@   on lookup environment.Manager.pendingStateChangeCh : found = result1
+//@   on call delete when argtype0 == "map[uid.ID]chan *event.TasksReleasedEvent" : assert wlocked && lookedLocked
+//@   on send * : assert found
+
+// ---------------------------------------------------------------------------------------------------------
 // C03: a task that announces an internal error has failed, whatever its environment is doing: its role is told ERROR
 // (for a critical task that takes the workflow, and through the watcher the environment, to ERROR - also in CONFIGURED),
 // and the run is stopped on its account only if the task is critical ("the same failures of a non-critical task never
